@@ -184,8 +184,10 @@ def workflows(draw, max_components=6, max_stages=3, names="simple", methods=("re
             repeat = draw(st.sampled_from([5, 7, 10]))
         shutdown_on = []
         if allow_shutdown and draw(st.integers(0, 3)) == 0:
+            # (Success on the list is legal input; "success gives finished" all the same)
             shutdown_on = draw(st.lists(st.sampled_from(["KnownIssue", "SystemIssue", "UnknownIssue",
-                                                         "ResourceExhausted"]), min_size=1, max_size=2, unique=True))
+                                                         "ResourceExhausted", "KnownIssue", "SystemIssue", "Success"]),
+                                        min_size=1, max_size=2, unique=True))
         restart_on = None
         max_restarts = None
         if draw(st.integers(0, 4)) == 0:
